@@ -13,12 +13,13 @@ import "sync"
 // is entered. Constructors, destructors and Range callbacks are caller code.)
 // Without the build tag verifYield is an empty function (usagepool_noverif.go).
 const (
-	VerifUPLoadOrNewWait   = 1 // LoadOrNew, key found: refs incremented, pool unlocked, before upv.RLock()
-	VerifUPLoadOrNewFail   = 2 // LoadOrNew, constructor failed: upv.err set, before up.Lock()
-	VerifUPLoadOrStoreWait = 3 // LoadOrStore, key found: refs incremented, pool unlocked, before upv.Lock()
-	VerifUPDeleteRead      = 4 // Delete, refs reached 0: entry removed, pool unlocked, before upv.RLock()
-	VerifUPReferencesLoad  = 5 // References, key found: pool unlocked, before atomic.LoadInt32(&upv.refs)
-	VerifUPRangeVisit      = 6 // Range, holding up.RLock(): before upv.RLock() of the next entry
+	VerifUPLoadOrNewWait    = 1 // LoadOrNew, key found: refs incremented, pool unlocked, before upv.RLock()
+	VerifUPLoadOrNewFail    = 2 // LoadOrNew, constructor failed: upv.err set, before up.Lock()
+	VerifUPLoadOrStoreWait  = 3 // LoadOrStore, key found: refs incremented, pool unlocked, before upv.RLock()
+	VerifUPDeleteRead       = 4 // Delete, refs reached 0: entry removed, pool unlocked, before upv.RLock()
+	VerifUPReferencesLoad   = 5 // (no longer used: References reads the count while holding up.RLock())
+	VerifUPRangeVisit       = 6 // (no longer used: Range never waits for an entry lock)
+	VerifUPLoadOrStoreRetry = 7 // LoadOrStore, the loaded value's constructor failed: entry unlocked, before starting over with up.Lock()
 )
 
 // VerifUsagePoolYield, if set (before any pool is used), is called at every yield
